@@ -58,6 +58,11 @@ var reviewedND = map[string][2]string{
 	"shared-object:core.groupChainImpl":                               {"chain-store", "group lookups, reviewed call by call in storeReads (R1.1s)"},
 	"shared-object:core.blockChainImpl":                               {"chain-store", "header lookup below the fork window, reviewed in storeReads (R1.1s)"},
 	"shared-object:core.SyncProcessor":                                {"chain-store", "fork-aware group lookup (sub-chain reward), reviewed in storeReads (R1.1s)"},
+	"shared-object:common.hasherPool":                                 {"reset-pool", "pool of sha256 states; Sha256 calls Reset() on the state right after Get"},
+	"shared-object:rlp.encbufPool":                                    {"reset-pool", "pool of RLP encode buffers; Encode/EncodeToBytes/EncodeToReader call reset() right after Get"},
+	"shared-object:trie.hasherPool":                                   {"reset-pool", "pool of trie hashers; newHasher re-assigns the per-call fields, the keccak state and the scratch buffer are Reset() at each use (hasher.store/makeHashNode)"},
+	"shared-object:vm.stackPool":                                      {"reset-pool", "pool of operand stacks; returnStack truncates data before Put"},
+	"shared-object:vm.rStackPool":                                     {"reset-pool", "pool of return stacks; returnRStack truncates data before Put"},
 	"shared-object:bls12381.x":                                        {"immutable-value", "curve parameter, read with Bit/BitLen only"},
 	"shared-object:bn256.curveLattice":                                {"stateless-service", "lattice constants for GLV decomposition; Multi allocates its result"},
 	"shared-object:executor.ErrIntrinsicGas":                          {"immutable-value", "error value, Error() only"},
@@ -192,6 +197,8 @@ func c01Shared(c *eng.Ctx, r *eng.Report, cone *eng.Cone, shared map[string][]en
 				if !readOnlyMethods[m] {
 					msg = "method " + m + " is not a read-only accessor (" + c.Pos(h.Pos) + ")"
 				}
+			case "reset-pool":
+				// decided once for the whole pool below
 			case "stateless-service", "chain-store":
 				f := call.Call.StaticCallee()
 				if f == nil || !eng.InMod(f) || len(f.Params) == 0 {
@@ -233,6 +240,46 @@ func c01Shared(c *eng.Ctx, r *eng.Report, cone *eng.Cone, shared map[string][]en
 						}
 					}
 				}
+			}
+		}
+		if rv[0] == "reset-pool" {
+			// a sync.Pool of scratch objects: whatever comes out is re-initialised right after Get (Reset()/reset()
+			// or field assignments) in every taker, or emptied before Put in every giver
+			resets := func(fn *ssa.Function, before ssa.Instruction) bool {
+				for _, s2 := range eng.Sites(fn) {
+					n2 := s2.Name()
+					if strings.HasSuffix(n2, ").Reset") || strings.HasSuffix(n2, ").reset") || strings.HasSuffix(n2, ".Reset") {
+						return true
+					}
+				}
+				for _, b := range fn.Blocks {
+					for _, in := range b.Instrs {
+						if st, isSt := in.(*ssa.Store); isSt {
+							if _, isFA := st.Addr.(*ssa.FieldAddr); isFA && (before == nil || eng.Dominates(st, before)) {
+								return true
+							}
+						}
+					}
+				}
+				return false
+			}
+			getOK, putOK, nGet, nPut := true, true, 0, 0
+			for _, h := range hits {
+				call := h.Instr.(*ssa.Call)
+				f := call.Call.StaticCallee()
+				switch {
+				case f != nil && f.Name() == "Get":
+					nGet++
+					getOK = getOK && resets(h.Fn, nil)
+				case f != nil && f.Name() == "Put":
+					nPut++
+					putOK = putOK && resets(h.Fn, call)
+				default:
+					msg = "unexpected pool operation " + h.Detail
+				}
+			}
+			if msg == "" && !((nGet > 0 && getOK) || (nPut > 0 && putOK)) {
+				msg = fmt.Sprintf("neither every taker re-initialises the object after Get (%d sites, ok=%v) nor every giver empties it before Put (%d sites, ok=%v)", nGet, getOK, nPut, putOK)
 			}
 		}
 		if msg != "" {
